@@ -531,7 +531,7 @@ def run_whole(kind, ctx):
 
 # ---- (e) defined names ----------------------------------------------------------
 def names_book():
-    titles = ['Sheet1', 'My Sheet']
+    titles = ['Sheet1', 'My Sheet', 'US$']
     book = Book(titles)
     book.names = {
         'nm': 'Sheet1!$B$2',
@@ -540,14 +540,21 @@ def names_book():
         'qrng': "'My Sheet'!$A$1:$A$3",
         # a name for two blocks that share neither rows nor columns
         'parts': 'Sheet1!$A$1:$A$2,Sheet1!$C$3:$D$4',
+        # the dollar sign of a sheet name is not an absolute marker
+        'drng': "'US$'!$A$1:$B$1",
     }
     v = book.value
-    s1, s2 = titles
+    s1, s2, s3 = titles
     partsum = v(s1, 'A', 1) + v(s1, 'A', 2) + sum(
         v(s1, c, r) for r in (3, 4) for c in 'CD')
     rngsum = sum(v(s1, c, r) for r in (1, 2) for c in 'AB')
     qsum = sum(v(s2, 'A', r) for r in (1, 2, 3))
     for host in titles:
+        book.add_probe(host, '=SUM(drng)',
+                       'C03/names/host=%s/SUM(drng)' % host,
+                       lib.norm(v(s3, 'A', 1) + v(s3, 'B', 1)),
+                       ['name:range', 'name:quoted-sheet',
+                        'sheetname:dollar'])
         book.add_probe(host, '=nm+1', 'C03/names/host=%s/nm+1' % host,
                        lib.norm(v(s1, 'B', 2) + 1),
                        ['name:cell'])
